@@ -354,7 +354,7 @@ MANIFEST_TEXT = {
         note="Trusted: Lean kernel + standard axioms; hand-written model of kvIndex.UpdateIndex and of the log, validated by correspondence (bounded by the generators); hypothesis KvOps (a key-value log carries only PUT/DEL) and the log universe assumptions.",
         technique="Lean 4 proof (handled-set scan = replay, invariant along histories) with differential correspondence against the real key-value store"),
     "C07": dict(
-        text="Kernel-checked theorems: the document index loop (after the fix: commit for PUTALL members) is equivalent to the replay of the listing at every step of every history, batch members included; Get returns exactly the matching index keys; the pinned loop is refuted by a decide-checked witness that was replayed on the real code before the fix. Correspondence and the L1 predicate index = docReplay(Values()) run on the implementation after every step; Get/Query results are compared with the matching documents of the index. After the fix: commit F45 the documents are the replay of what the log lists with no history hypothesis (proved; a trimming Load on a live store left the documents of the trimmed entries visible: decide-checked witness, replayed in the limit family). Get and Query answer from one state of the documents (finding F58, fix: commit - keys and values were read in separate lock sections: a Query overlapping a batch put returned one document of each generation; the doc family lets a batch put land while a Query reads, with the caller's filter as the meeting point; the one-state read is regenerated from the Go text).",
+        text="Kernel-checked theorems: the document index loop (after the fix: commit for PUTALL members) is equivalent to the replay of the listing at every step of every history, batch members included; Get returns exactly the matching index keys; the pinned loop is refuted by a decide-checked witness that was replayed on the real code before the fix. Correspondence and the L1 predicate index = docReplay(Values()) run on the implementation after every step; Get/Query results are compared with the matching documents of the index. After the fix: commit F45 the documents are the replay of what the log lists with no history hypothesis (proved; a trimming Load on a live store left the documents of the trimmed entries visible: decide-checked witness, replayed in the limit family). Get and Query answer from one state of the documents (finding F58, fix: commit - keys and values were read in separate lock sections: a Query overlapping a batch put returned one document of each generation; the doc family lets a batch put land while a Query reads, with the caller's filter as the meeting point; the one-state read is regenerated from the Go text). An acknowledged Delete of a key the view does not hold is a failure (`C07/delete`: 'deleting an absent key is refused').",
         note="Trusted: Lean kernel + standard axioms; hand-written model of documentIndex.UpdateIndex/Get validated by correspondence; DocWF (members of one PUTALL have distinct keys: built from a Go map); ASCII lower-casing in the model; search keys with spaces excluded by the property.",
         technique="Lean 4 proof (generic handled-set scan = replay theorem instantiated for PUT/DEL/PUTALL) with differential correspondence against the real document store"),
     "C08": dict(
